@@ -1,6 +1,6 @@
 """C02 SMILES write -> read is lossless; canonical strings never collide.
 Model: coq/model/Writer.v (the writer: traversal, closure numbers, atom / bond tokens, cis-trans marks; the tokenizer and
-the bracket-atom matcher of the reader).  Theorems: coq/proofs/Writer*Proofs.v, restated in coq/props/C02.v.
+the bracket-atom matcher of the reader).  Theorems: coq/proofs/WriterProofs*.v, restated in coq/props/C02.v.
 Correspondence: the real `_smiles` (list of strings + order), `format(mol, spec)` / `str(mol)` and `smiles_atoms_order`
 against the model with the real weights as `w` and the observed order as tie-break `tb`; `_tokenize` / `_atom_parse`
 against their models.  Search: write -> read -> compare along the written order (no canoniser), RDKit, injectivity."""
@@ -293,6 +293,14 @@ def api_molecules():
     m.add_bond(10, 70, 1)
     m.add_bond(20, 50, 1)
     out.append(('api:bicycle-reverse-insertion', m))
+    # aromatic boron without hydrogen: the only way to get the bare lower-case 'b' written (built here so that the molecule
+    # exists even when the reader no longer accepts that token)
+    m = MoleculeContainer()
+    for k, sym in enumerate('BCCCCC', 1):
+        m.add_atom(sym, k)
+    for k in range(1, 7):
+        m.add_bond(k, k % 6 + 1, 4)
+    out.append(('api:borabenzene', m))
     return out
 
 
@@ -303,7 +311,7 @@ def pool(ck):
     rng = random.Random(f'{ck.seed}:c02pool')
     quick = ck.tier == 'quick'
     mols = special_molecules() + api_molecules()
-    for salt, src, k in (('lipo', corpus.lipo(), 70 if quick else 1200), ('stereo', corpus.stereo_smiles(), 45 if quick else 600)):
+    for salt, src, k in (('lipo', corpus.lipo(), 70 if quick else 500), ('stereo', corpus.stereo_smiles(), 45 if quick else 300)):
         for smi in corpus.sample(src, k, ck.seed, 'c02' + salt):
             try:
                 m = smiles(smi)
@@ -314,7 +322,7 @@ def pool(ck):
             mols.append((smi, m))
     ren = []
     for name, m in mols:
-        if rng.random() < (0.3 if quick else 0.6) and len(m) > 1:
+        if rng.random() < (0.3 if quick else 0.5) and len(m) > 1:
             try:
                 ren.append((name + '#renumbered', corpus.renumber(m, rng)))
             except Exception:
@@ -354,7 +362,7 @@ def corr_writer(ck, mols):
     from chython import MoleculeContainer
     rng = random.Random(f'{ck.seed}:c02corr')
     quick = ck.tier == 'quick'
-    specs_all = SPECS_QUICK if quick else all_specs()
+    specs_all = SPECS_QUICK if quick else SPECS_QUICK + random.Random(f'{ck.seed}:c02specs').sample(all_specs(), 45)
     shards, metas = [], []
     defs, cases, meta, size = [], [], [], 0
     api_ok = True
@@ -581,7 +589,7 @@ def corr_reader(ck, texts):
             for st in ('', '@', '@@', '@@@'):
                 for h in ('', 'H', 'H0', 'H1', 'H4', 'H5', 'H12', 'HH'):
                     for chg in ('', '+', '-', '+2', '-4', '+5', '++', '+-', '--', '+++', '-1', '+1+'):
-                        if rng.random() < (0.003 if quick else 0.2):
+                        if rng.random() < (0.003 if quick else 0.03):
                             for mp in ('', ':1', ':0', ':9999', ':10000', ':', ':a', ':12x'):
                                 add2(iso + sym + st + h + chg + mp)
     for _ in range(250 if quick else 4000):
@@ -993,7 +1001,7 @@ def search_small_graphs(ck, max_atoms, decor, full_upto):
     for na in range(1, max_atoms + 1):
         skels = SKELETONS.get(na, []) if na > 1 else [[]]
         for sk in skels:
-            for els in itertools.product(decor if na <= full_upto else DECOR[:3], repeat=na):
+            for els in itertools.product((decor if na <= 3 else DECOR[:5]) if na <= full_upto else DECOR[:3], repeat=na):
                 for ords in itertools.product((1, 2, 3) if na <= full_upto else (1, 2), repeat=len(sk)):
                     m = MoleculeContainer()
                     try:
@@ -1066,7 +1074,7 @@ def search(ck, mols):
     quick = ck.tier == 'quick'
     rng = random.Random(f'{ck.seed}:c02search')
     rest = [x for x in mols if x[0] not in SPECIAL_SET]
-    sub = mols if not quick else ([x for x in mols if x[0] in SPECIAL_SET] + rng.sample(rest, min(110, len(rest))))
+    sub = mols if not quick else ([x for x in mols if x[0] in SPECIAL_SET or x[0].startswith('api:')] + rng.sample(rest, min(110, len(rest))))
     found = search_roundtrip(ck, sub, n_random=3 if quick else 5, full=not quick)
     found += search_ring_stereo(ck, 45 if quick else 600, 10 if quick else 25)
     stereo_mols = [x for x in mols if sum(n_labels(x[1])) > 0 and '#' not in x[0]]
@@ -1141,11 +1149,14 @@ def run(ck):
         'outputs of the model in the correspondence, not proved for every traversal',
         'implicit_hydrogens None (undetermined: aromatic heteroatom before kekule(), valence error) is not counted as information the round trip can lose']
     ck.extra['rule'] = ('correspondence: special molecules (brackets, radicals, stereo, allenes, cis/trans in chains and rings, multi-component, special bonds), '
-                        'corpus samples and random renumberings x format specs (canonical + 3 rotating of 15; all 15 for special and every 6th molecule); '
+                        'corpus samples and random renumberings x format specs (canonical + 2-3 rotating of 15; all 15 for every 7th molecule), plus '
+                        'caller-supplied weight functions (atom numbers, random injective, random with ties, constant) on special and every 9th molecule; '
+                        'every model output is also run through the token-stream checker, every 4th through the closure-list checker; '
                         'tokenizer: every written text, all strings <= 2 (quick) / 3 characters over 33 SMILES characters, 600 corruptions of written texts; '
                         'atom_parse: every written bracket body, all element symbols, field grids incl. out-of-range values, random bodies. '
                         'search: write in each style and random orders -> chython reader -> attribute comparison along the written order, stereo via '
-                        '_translate_*_sign and via RDKit; injectivity on all stereoisomers of sampled molecules and on exhaustive decorated graphs <= 4 (5) atoms. '
+                        '_translate_*_sign and via RDKit, also with caller-supplied weights; polycyclic stereo molecules in 10 (25) random orders; '
+                        'injectivity on all stereoisomers of sampled molecules and on exhaustive decorated graphs <= 4 (5) atoms. '
                         'non-trivial = molecule with more than 2 atoms / tokenizer input non-empty / bracket body accepted')
     import time
     tm = {}
